@@ -237,6 +237,11 @@ def l3(which, quick):
             R += [dict(backend=b, mode=LIST, nj=2, pre=4, bs=1, n=8, order=[2, 3], fail=[2], calls=2),
                   dict(backend=b, mode=GEN, nj=2, pre=4, bs=2, n=9, order=[3, 2, 0], fail=[5], calls=2),
                   dict(backend=b, mode=UNORD, nj=2, pre="2*n_jobs", bs=1, n=6, order="reverse", fail=[0], calls=2)]
+            if b != "threading":
+                # the outcome of a task cannot be sent back (result or exception that cannot be pickled): the call still
+                # terminates with an error and the object stays usable
+                R += [dict(backend=b, mode=LIST, nj=2, pre=4, bs=1, n=6, order="inorder", fail=[2], transport="result", calls=2, watchdog=25),
+                      dict(backend=b, mode=LIST, nj=2, pre=4, bs=1, n=6, order="inorder", fail=[1], transport="exception", calls=2, watchdog=25)]
             if not quick:
                 R += [dict(backend=b, mode=LIST, nj=3, pre="all", bs=1, n=6, order=[2, 0, 1], fail=[4, 1], calls=3)]
         elif which == "C16":
